@@ -137,6 +137,10 @@ def writes_in_function(repo, inv, q, m, fn, cg=None):
     clsq = getattr(cls, "_qualname", None)
     params_with_default = {p for (fq, p) in inv.defaults if fq == q}
     _aliasing = set()
+    declared_global = set()
+    for n in ast.walk(fn):
+        if isinstance(n, ast.Global) and enclosing_function(n) is fn:
+            declared_global.update(n.names)
 
     def resolve(base):
         """object id of expression `base` if it denotes a shared mutable object"""
@@ -239,12 +243,81 @@ def writes_in_function(repo, inv, q, m, fn, cg=None):
                                                       and x.value.id == n.value.id for x in ast.walk(m.tree))
             if read:
                 out.append(("classattr:%s.%s.%s" % (m.name, n.value.id, n.attr), n, "class attribute rebound"))
+        elif isinstance(n, ast.Name) and isinstance(n.ctx, ast.Store) and n.id in declared_global and enclosing_function(n) is fn:
+            # `global X` + a store to X inside a function body: the module variable is rebound for every later call
+            read = any(isinstance(x, ast.Name) and isinstance(x.ctx, ast.Load) and x.id == n.id for x in ast.walk(m.tree))
+            if read:
+                out.append(("globalvar:%s.%s" % (m.name, n.id), n, "module variable rebound"))
         elif isinstance(n, ast.AugAssign):
             oid = resolve(n.target) if isinstance(n.target, (ast.Name, ast.Attribute)) else None
             if oid and isinstance(n.target, ast.Attribute):
                 out.append((oid, n, "augmented assignment"))
             elif oid and isinstance(n.target, ast.Name) and n.target.id not in locs:
                 out.append((oid, n, "augmented assignment"))
+    return out
+
+
+MEMO_DECORATORS = {"functools.lru_cache", "functools.cache", "functools._lru_cache_wrapper"}
+
+
+def memoised(repo, m, fn):
+    """the memoising decorator of fn, resolved through the module's imports (functools.lru_cache / functools.cache, called or bare)"""
+    for d in fn.decorator_list:
+        f = d.func if isinstance(d, ast.Call) else d
+        dn = dotted_of(f)
+        if not dn:
+            continue
+        head = dn.split(".")[0]
+        full = (m.imports[head] + dn[len(head):]) if head in m.imports else dn
+        if full in MEMO_DECORATORS:
+            return full
+    return None
+
+
+def mutable_result(fn):
+    """why the value this function hands back is one mutable object: a generator, a container display, or a local bound to one"""
+    own = [n for n in ast.walk(fn) if enclosing_function(n) is fn]
+    if any(isinstance(n, (ast.Yield, ast.YieldFrom)) for n in own):
+        return "a generator (exhausted after the first caller)"
+    local_mut = {}
+    for n in own:
+        if isinstance(n, ast.Assign) and len(n.targets) == 1 and isinstance(n.targets[0], ast.Name) and is_mutable_expr(n.value):
+            local_mut[n.targets[0].id] = ast.unparse(n.value)[:30]
+    for n in own:
+        if isinstance(n, ast.Return) and n.value is not None:
+            if is_mutable_expr(n.value):
+                return "a new %s" % ast.unparse(n.value)[:30]
+            if isinstance(n.value, ast.Name) and n.value.id in local_mut:
+                return "the container %s = %s" % (n.value.id, local_mut[n.value.id])
+    return None
+
+
+def result_users(repo, cg, q):
+    """(caller, how) for callers that modify or hand on the object returned by q"""
+    out = []
+    for caller, sites in cg.sites.items():
+        for s in sites:
+            if q not in s.targets or not isinstance(s.node, ast.Call) or caller not in repo.functions:
+                continue
+            cm, cfn = repo.functions[caller]
+            par = None
+            for x in ast.walk(cfn):
+                for ch in ast.iter_child_nodes(x):
+                    if ch is s.node:
+                        par = x
+            if isinstance(par, ast.Return):
+                out.append((caller, "returns it to its own caller"))
+            elif isinstance(par, ast.Assign) and len(par.targets) == 1 and isinstance(par.targets[0], ast.Name):
+                nm = par.targets[0].id
+                for x in ast.walk(cfn):
+                    if isinstance(x, ast.Call) and isinstance(x.func, ast.Attribute) and x.func.attr in MUTATORS and isinstance(x.func.value, ast.Name) and x.func.value.id == nm:
+                        out.append((caller, "%s.%s(...)" % (nm, x.func.attr)))
+                    elif isinstance(x, ast.Subscript) and isinstance(x.ctx, (ast.Store, ast.Del)) and isinstance(x.value, ast.Name) and x.value.id == nm:
+                        out.append((caller, "%s[...] = ..." % nm))
+                    elif isinstance(x, ast.AugAssign) and isinstance(x.target, ast.Name) and x.target.id == nm:
+                        out.append((caller, "%s %s= ..." % (nm, type(x.op).__name__)))
+                    elif isinstance(x, ast.Return) and isinstance(x.value, ast.Name) and x.value.id == nm:
+                        out.append((caller, "returns it to its own caller"))
     return out
 
 
@@ -278,6 +351,8 @@ def run(rep, tier):
                        "table of confirmed-benign writers")
     rep.rule("R1", "no function reachable from a public operation writes to a module-level or class-level container or to a mutable default argument, except the "
                    "confirmed write-only / documented instances listed in rules/c18.py")
+    rep.rule("R3", "a memoised function (functools.lru_cache / cache) reachable from a public operation does not hand the same mutable object (list, dict, set, generator) "
+                   "to callers that modify it or pass it on")
     rep.rule("R2", "load_code builds a fresh unmarshaller whose reference and interned-string tables are new lists per call")
     repo = get_repo()
     T = tables()
@@ -297,6 +372,7 @@ def run(rep, tier):
     rep.floor("functions reachable from the public operations", len(seen), 200)
     n_writes = 0
     all_writes = 0
+    n_memo = 0
     for q, (m, fn) in sorted(repo.functions.items()):
         ws = writes_in_function(repo, inv, q, m, fn, cg)
         all_writes += len(ws)
@@ -318,14 +394,28 @@ def run(rep, tier):
                    msg="%s is shared by all calls and is modified by %s, reachable via %s: later calls see the change" % (oid, q, " -> ".join(path[-3:]) or "a public root"))
         if not ws:
             rep.ob("R1", q, "no-shared-write", True)
+        memo = memoised(repo, m, fn)
+        if memo:
+            n_memo += 1
+            why = mutable_result(fn)
+            users = result_users(repo, cg, q) if why else []
+            public = q in ROOTS
+            bad = bool(why) and (public or bool(users))
+            rep.ob("R3", q, "memoised-result", not bad, expected="an immutable result, or a mutable one that no caller modifies or hands on", derived="%s; result: %s; %s" % (
+                memo, why or "immutable", "public operation" if public else ("users: %s" % users[:3])),
+                where=repo.where(m, fn), msg="%s keeps the result of %s for later calls and that result is %s%s: a later call sees what an earlier caller did to it" % (
+                    memo, q, why, (", e.g. %s does %s" % users[0]) if users else " handed to the library's user"))
     rep.extra["write_sites_in_repo"] = all_writes
     rep.extra["write_sites_reachable"] = n_writes
+    rep.extra["memoised_reachable_functions"] = n_memo
     rep.extra["shared_objects"] = {"module_level": len(inv.globals), "class_level": len(inv.class_attrs), "mutable_defaults": sorted("%s(%s)" % k for k in inv.defaults),
                                    "aliased_instance_attrs": sorted("%s.%s" % k for k in inv.alias_attrs)}
     # ---------------------------------------------------------------- positive control
     src = ("CACHE = {}\nNAMES = {}\nclass K:\n    table = []\n    mode = None\n    def f(self, x):\n        self.table.append(x)\n        return self.mode\n"
            "def g(k, memo={}):\n    CACHE[k] = 1\n    memo[k] = 2\ndef h(extra):\n    names = NAMES\n    names.update(extra)\n    copy = dict(NAMES)\n    copy.update(extra)\n"
-           "def configure(v):\n    K.mode = v\n")
+           "def configure(v):\n    K.mode = v\nWIDTH = 20\ndef widen(n):\n    global WIDTH\n    if n > WIDTH:\n        WIDTH = n\n    return WIDTH\n"
+           "from functools import lru_cache\n@lru_cache(maxsize=8)\ndef labels(code):\n    out = []\n    out.append(len(code))\n    return out\n"
+           "@lru_cache\ndef width(code):\n    return len(code)\n")
     cm = Module("ctl", "/dev/null/ctl.py", src)
     fns, clss = {}, {}
     for n in ast.walk(cm.tree):
@@ -355,8 +445,11 @@ def run(rep, tier):
     got = []
     for qn, (m_, fn_) in fns.items():
         got += [o for o, n_, h in writes_in_function(FakeRepo(), cinv, qn, m_, fn_)]
-    if sorted(got) != ["class:ctl.K.table", "classattr:ctl.K.mode", "default:ctl.g(memo)", "global:ctl.CACHE", "global:ctl.NAMES"]:
+    if sorted(got) != ["class:ctl.K.table", "classattr:ctl.K.mode", "default:ctl.g(memo)", "global:ctl.CACHE", "global:ctl.NAMES", "globalvar:ctl.WIDTH"]:
         raise AnalysisError("positive control failed: %s" % got)
+    memo_ctl = {qn: (memoised(FakeRepo(), m_, fn_), mutable_result(fn_)) for qn, (m_, fn_) in fns.items() if memoised(FakeRepo(), m_, fn_)}
+    if set(memo_ctl) != {"ctl.labels", "ctl.width"} or not memo_ctl["ctl.labels"][1] or memo_ctl["ctl.width"][1]:
+        raise AnalysisError("positive control (memoised functions) failed: %s" % memo_ctl)
     # ---------------------------------------------------------------- R2
     m, fn = repo.function("xdis.unmarshal.load_code")
     ctor = [n for n in ast.walk(fn) if isinstance(n, ast.Call) and ast.unparse(n.func).endswith("_VersionIndependentUnmarshaller")]
